@@ -63,7 +63,22 @@ class Prover:
             if len(res['samples']) < 6:
                 res['samples'].append(dict(obligation=desc, verdict='sat', ms=round(dt * 1000, 1)))
             return False
-        res['unknown'].append(f'{desc}: solver returned {r} ({self.s.reason_unknown()}) after {dt:.1f}s')
+        from vp import symx
+        syms = [(n, c) for n, (c, _) in CTX.symbols.items()]
+        r2, vals, tool = symx.external_check(list(self.assumptions) + [z3.Not(g)] + list(extra), syms, getattr(self, 'portfolio_s', 90))
+        res['queries'] += 1
+        if r2 == 'unsat':
+            res['discharged'] += 1
+            res['notes'].append(f'{desc}: in-process z3 gave unknown, discharged by {tool}')
+            return True
+        if r2 == 'sat':
+            m2 = model_from_values(vals, syms)
+            w = witness_fn(m2) if witness_fn else dict(what=desc)
+            w.setdefault('what', desc)
+            w['route'] = f'counterexample found by {tool} after in-process z3 returned unknown'
+            res['failures'].append(w)
+            return False
+        res['unknown'].append(f'{desc}: solver returned {r} ({self.s.reason_unknown()}) after {dt:.1f}s; cvc5 / z3 4.8 binaries also inconclusive')
         return False
 
 
@@ -95,7 +110,7 @@ def bv_value(m, t):
 def model_bytes(m, arr):
     """Concrete values of a shim array of bit-vector terms under model m (nested lists)."""
     a = S._w(arr)
-    out = rnp.zeros(a.shape, dtype=rnp.int64)
+    out = rnp.zeros(a.shape, dtype=object)
     for i in rnp.ndindex(a.shape):
         x = a.c[i]
         out[i] = bv_value(m, x) if E.is_sym(x) else int(x)
@@ -162,8 +177,11 @@ class PathProver:
                     if m is not None:
                         r = 'sat'
                     else:
-                        r, vals = self.ex.prove_forked(g0, getattr(self, 'long_limit', 60.0), syms)
+                        r, vals, tool = self.ex.prove_external(g0, getattr(self, 'long_limit', 60.0), syms)
                         m = model_from_values(vals, syms) if r == 'sat' else None
+                        if r == 'unknown':
+                            r, vals = self.ex.prove_forked(g0, getattr(self, 'long_limit', 60.0), syms)
+                            m = model_from_values(vals, syms) if r == 'sat' else None
         dt = time.time() - t
         if r == 'unsat':
             res['discharged'] += 1
@@ -224,7 +242,9 @@ class EvalModel:
         self.axioms = axioms
 
     def eval(self, t, model_completion=True):
-        r = z3.simplify(z3.substitute(t, *self.pairs))
+        r = z3.simplify(z3.substitute(t, *self.pairs)) if self.pairs else z3.simplify(t)
+        if model_completion and z3.is_const(r) and r.decl().kind() == z3.Z3_OP_UNINTERPRETED:
+            r = z3.BitVecVal(0, r.size()) if z3.is_bv(r) else (z3.BoolVal(False) if z3.is_bool(r) else (z3.IntVal(0) if r.is_int() else z3.RealVal(0)))
         if self.axioms and not (z3.is_bv_value(r) or z3.is_true(r) or z3.is_false(r) or z3.is_rational_value(r) or z3.is_int_value(r)):
             s = z3.Solver()
             s.add(*self.axioms)
